@@ -80,7 +80,22 @@ func runC05(e *Engine, g G, o RunOpt) RunInfo {
 		// business); keep it out of this scenario
 		io2.AllowA = false
 	}
+	wsCut, wsQuiet := false, false
 	if sc.WebSocket {
+		// Known finding websocket-frames-dropped-after-connection-loss needs the client to write
+		// between the arrival of a frame and the loss. When that trigger is avoided, losses are
+		// still explored - with histories in which the client has nothing to write (no <r/>, no
+		// IQ requests, silent handlers, no stream management): there nothing may be dropped.
+		wsCut = g.Pct("ws-cut", 35)
+		if wsCut && o.Avoiding("websocket-connection-loss") {
+			wsQuiet = true
+			io2.AllowR = false
+			io2.AllowIQReq = false
+			io2.NoIQ = true
+			sc.Reply = false
+			sc.Client.SM = false
+			sc.Server.SM = false
+		}
 		io2.MaxBig = 30000 // frames are limited to 32 KiB by the transport
 		io2.AllowSpace = false
 		if n > 25 {
@@ -100,8 +115,8 @@ func runC05(e *Engine, g G, o RunOpt) RunInfo {
 	}
 	total := lastEnd(sc.Inbound)
 	sc.Cut = g.Pct("cut", 35)
-	if sc.WebSocket && o.Avoiding("websocket-connection-loss") {
-		sc.Cut = false
+	if sc.WebSocket {
+		sc.Cut = wsCut
 	}
 	if sc.Cut {
 		sc.CutAt = int64(g.Range("cutat", 0, int(total)))
@@ -272,8 +287,11 @@ func runC05(e *Engine, g G, o RunOpt) RunInfo {
 	})
 
 	info := RunInfo{Scenario: sc, Nontrivial: established && len(sc.Inbound) > 0}
-	if sc.WebSocket && sc.Cut {
+	if sc.WebSocket && sc.Cut && !wsQuiet {
 		info.Triggers = append(info.Triggers, "websocket-connection-loss")
+	}
+	if wsQuiet {
+		e.Probe("c05.websocket_loss_without_client_writes")
 	}
 	if sc.BackPressure > 0 {
 		for _, el := range sc.Inbound {
